@@ -7,6 +7,7 @@ use crate::diff::{HHunk, HLine};
 use crate::engine::*;
 use crate::inproc::{self, Rep, Step};
 use crate::model::*;
+use crate::ws;
 use serde::{Deserialize, Serialize};
 
 #[derive(Clone, Debug, Serialize, Deserialize)]
@@ -21,6 +22,9 @@ pub struct PlaceCase {
     /// second, larger fuzz limit (used by C20 only)
     #[serde(default)]
     pub fuzz2: usize,
+    /// C20 only: also push through the binary with this many threads
+    #[serde(default)]
+    pub cli_threads: Option<usize>,
 }
 
 impl PlaceCase {
@@ -188,7 +192,7 @@ pub fn gen_place_case(ch: &mut Chooser, o: &GenOpts) -> PlaceCase {
     let hunks = gen_hunks_for(ch, &file, k, o.max_hunks);
     let hunks = if reverse { hunks.iter().map(|h| h.reversed()).collect() } else { hunks };
     let fuzz2 = fuzz + 1 + ch.below(3);
-    PlaceCase { file, hunks, reverse, fuzz, fuzz2 }
+    PlaceCase { file, hunks, reverse, fuzz, fuzz2, cli_threads: None }
 }
 
 pub fn run_place(case: &PlaceCase, fuzz: usize, rollback: bool) -> Result<inproc::HistoryOut, Verdict> {
@@ -287,6 +291,7 @@ fn sweep_c02(env: &Env, sink: &mut dyn FnMut(PlaceCase) -> bool) -> (u64, bool) 
                                             reverse: false,
                                             fuzz,
                                             fuzz2: fuzz + 1,
+                                            cli_threads: None,
                                         };
                                         if !sink(case) {
                                             return (count, false);
@@ -664,7 +669,19 @@ impl Prop for C20 {
     }
     fn build(&self, ch: &mut Chooser, cx: &mut CaseCtx) -> PlaceCase {
         let o = GenOpts { max_file: cx.env.tier.pick(12, 30), max_hunks: 3, max_fuzz: 2 };
-        gen_place_case(ch, &o)
+        let mut c = gen_place_case(ch, &o);
+        // prefer cases that succeed at F: retry a few times
+        for _ in 0..2 {
+            let ok = place_all(&c.file, &c.mhunks(), c.fuzz).iter().all(|r| matches!(r, MRep::Applied { .. }));
+            if ok {
+                break;
+            }
+            c = gen_place_case(ch, &o);
+        }
+        if ch.chance(1, 16) {
+            c.cli_threads = Some(*ch.pick(&[1usize, 2, 4]));
+        }
+        c
     }
     fn check(&self, case: &PlaceCase, cx: &mut CaseCtx) -> Verdict {
         let h1 = match run_place(case, case.fuzz, false) {
@@ -697,6 +714,43 @@ impl Prop for C20 {
         cx.label_if(k1 != k2, "same-result-different-report");
         if h1.steps[0].after != h2.steps[0].after {
             return Verdict::Fail(format!("result differs between fuzz {} and {}", case.fuzz, f2));
+        }
+        if let Some(threads) = case.cli_threads {
+            cx.label("cli");
+            let mut snaps = Vec::new();
+            for f in [case.fuzz, f2] {
+                let mut tree = ws::Tree::default();
+                tree.files.insert("f".into(), ws::TFile { data: B(join_lines(&case.file)), mode: 0o644 });
+                tree.files.insert("g".into(), ws::TFile { data: B::new("x\n"), mode: 0o644 });
+                let series = format!("p.patch -p1{}\nq.patch\n", if case.reverse { " -R" } else { "" });
+                let q: &[u8] = b"--- a/g\n+++ b/g\n@@ -1 +1 @@\n-x\n+y\n";
+                let spec = ws::WsSpec { tree, patches: vec![("p.patch".into(), B(case.patch_text())), ("q.patch".into(), B::new(q))], series: B::new(series), applied: None, dirs: vec![] };
+                let root = cx.env.fresh_dir("c20-");
+                spec.materialise(&root);
+                let mut args = ws::base_args(threads);
+                args.extend(["-a".to_string(), "-q".to_string(), "--backup".to_string(), "always".to_string()]);
+                if f > 0 || case.fuzz2 % 2 == 0 {
+                    args.extend(["--fuzz".to_string(), f.to_string()]);
+                }
+                let out = ws::run_bin(&cx.env.bin, &root, &args, &Default::default(), &cx.env.scratch);
+                cx.evals += 1;
+                let snap = ws::snapshot(&root);
+                ws::rm_rf(&root);
+                if out.exit == ws::Exit::Timeout {
+                    return Verdict::Inconclusive("watchdog".into());
+                }
+                snaps.push((out, snap));
+            }
+            if snaps[0].0.exit == ws::Exit::Code(0) {
+                if snaps[1].0.exit != ws::Exit::Code(0) {
+                    return Verdict::Fail(format!("push succeeds with --fuzz {} but exits {:?} with --fuzz {}: {}", case.fuzz, snaps[1].0.exit, f2, ws::lossy(&snaps[1].0.stderr)));
+                }
+                if let Some(d) = ws::diff_maps(&ws::files_of(&snaps[0].1), &ws::files_of(&snaps[1].1), true) {
+                    return Verdict::Fail(format!("tree/metadata differ between --fuzz {} and --fuzz {}: {}", case.fuzz, f2, d));
+                }
+            } else if snaps[0].0.exit.is_crash() {
+                return Verdict::Fail(format!("push crashed with --fuzz {}: {:?}", case.fuzz, snaps[0].0.exit));
+            }
         }
         Verdict::Pass
     }
